@@ -108,14 +108,15 @@ func normalForm(hist []Op, rnd *rndSrc) []Op {
 
 var c17Kinds = func() []string {
 	k := append([]string{}, defaultOpKinds...)
-	k = append(k, "AllowAttrs", "AllowAttrs", "AllowAttrs", "AllowElements", "AllowStyles", "AllowStyles", "SkipElementsContent", "AllowElementsContent", "AllowURLSchemes", "AllowURLSchemeWithCustomPolicy",
+	k = append(k, "AllowAttrs", "AllowAttrs", "AllowAttrs", "AllowElements", "AllowStyles", "AllowStyles", "AllowStyles", "AllowStyles", "AllowStyles", "AllowStyles", "AllowStyles", "AllowStyles", "SkipElementsContent", "AllowElementsContent", "AllowURLSchemes", "AllowURLSchemeWithCustomPolicy",
 		"RequireSandboxOnIFrame", "AllowRelativeURLs", "RequireParseableURLs")
 	return k
 }()
 
 // small pools so that several ops touch the same element / attribute / property
 var c17Opts = &SpecOpts{ElPool: []string{"a", "b", "p", "div", "span", "img", "title", "object", "my-x", "iframe", "script", "td", "quiz"},
-	AtPool: []string{"href", "src", "id", "class", "title", "rel", "style", "align", "sandbox", "data-x", "size"}}
+	AtPool: []string{"href", "src", "id", "class", "title", "rel", "style", "align", "sandbox", "data-x", "size"},
+	StPool: []string{"color", "width", "text-align", "font-size", "z-index", "-webkit-color"}}
 
 func genC17(t *rapid.T) *Case {
 	c := &Case{}
@@ -143,6 +144,20 @@ func genC17(t *rapid.T) *Case {
 		for i := 0; i < k; i++ {
 			ins = append(ins, BStr(genSoup(t, m, &soupOpts{maxFrags: 8, els: c17Opts.ElPool, attrs: c17Opts.AtPool})))
 		}
+		// one input that exercises the style rules of the live histories with values at the boundary
+		// of the matchers (handlers of different policies must not influence each other)
+		if sv := m.styleVocabulary(); len(sv) > 0 {
+			var sb strings.Builder
+			for j := rapid.IntRange(1, 3).Draw(t, "nstyled"); j > 0; j-- {
+				el := rapid.SampledFrom(append([]string{"span", "span", "span"}, c17Opts.ElPool...)).Draw(t, "sel")
+				var ds []string
+				for d := rapid.IntRange(1, 3).Draw(t, "nsd"); d > 0; d-- {
+					ds = append(ds, rapid.SampledFrom(sv).Draw(t, "sprop")+": "+rapid.SampledFrom([]string{"teal", "plum", "red", "1px", "left", "blue", "10px", "#fff", "alpha beta"}).Draw(t, "sval"))
+				}
+				sb.WriteString("<" + el + ` id="i" style="` + strings.Join(ds, "; ") + `">t</` + el + ">")
+			}
+			ins = append(ins, BStr(sb.String()))
+		}
 		return ins
 	}
 	drawConform := func() []BStr {
@@ -167,6 +182,21 @@ func genC17(t *rapid.T) *Case {
 			}
 		case 1, 2, 3, 4, 5:
 			pi := rapid.IntRange(0, len(pols)-1).Draw(t, "pi")
+			if rapid.IntRange(0, 7).Draw(t, "styled") == 0 {
+				// a complete inline-style configuration whose handler is one of several closures of the
+				// same function literal: what one instance's handler decided must not leak into another's
+				for _, op := range []Op{
+					{Kind: "AllowElements", Names: []string{"span"}, ValRe: -1},
+					{Kind: "AllowAttrs", Attrs: []string{"style"}, Scope: "global", ValRe: -1},
+					{Kind: "AllowStyles", Attrs: []string{rapid.SampledFrom([]string{"color", "width"}).Draw(t, "stp")}, Scope: "global", ValRe: -1,
+						Match: "fn", Fn: rapid.IntRange(4, 6).Draw(t, "stfn")},
+				} {
+					op := op
+					pols[pi].hist = append(pols[pi].hist, op)
+					c.Steps = append(c.Steps, Step{Kind: "apply", P: pi, Op: &op})
+				}
+				continue
+			}
 			op := genOp(t, rapid.SampledFrom(c17Kinds).Draw(t, "kind"), c17Opts)
 			pols[pi].hist = append(pols[pi].hist, op)
 			c.Steps = append(c.Steps, Step{Kind: "apply", P: pi, Op: &op})
@@ -323,6 +353,9 @@ func checkC17(c *Case, r *Rec) error {
 						return violation(got, "C17(d): policy #%d with history %s: %v (input %s)", pi, histSpec(lp.base, lp.hist).String(), err, q(trunc(in, 150)))
 					}
 					if _, err := checkAttributes(m, newLog(), in, got, inToks, outToks, nil); err != nil {
+						return violation(got, "C17(d): policy #%d with history %s: %v (input %s)", pi, histSpec(lp.base, lp.hist).String(), err, q(trunc(in, 150)))
+					}
+					if _, err := checkStyleSafety(m, got, outToks, nil); err != nil {
 						return violation(got, "C17(d): policy #%d with history %s: %v (input %s)", pi, histSpec(lp.base, lp.hist).String(), err, q(trunc(in, 150)))
 					}
 					if iso := isolated.Sanitize(in); iso != got {
